@@ -103,8 +103,10 @@ def opR : BinOp → Register → Register → Register → List Code
   | .div, t, a, b => [.SDIV t a b]
   | .rem, t, a, b => remR t a b
 
-/-- code.rs: fn op -/
-def op (o : BinOp) (targetTemporary sourceTemporary1 sourceTemporary2 : Temporary) : List Code :=
+/-- code.rs: fn op, BEFORE repo commit 8e009b7: in the mixed cases the spilled operand is always
+loaded into TEMP — wrong when the register operand is TEMP itself (switch.rs: `add(temp, temp, tag)`).
+Kept for the defect witness `C07_a64_switch_spill_witness`. -/
+def opOld (o : BinOp) (targetTemporary sourceTemporary1 sourceTemporary2 : Temporary) : List Code :=
   match targetTemporary with
   | .register targetRegister =>
     match sourceTemporary1, sourceTemporary2 with
@@ -120,6 +122,33 @@ def op (o : BinOp) (targetTemporary sourceTemporary1 sourceTemporary2 : Temporar
      | .register r1, .register r2 => opR o TEMP r1 r2
      | .register r1, .spill p2 => .LDR TEMP .sp (stackOffset p2) :: opR o TEMP r1 TEMP
      | .spill p1, .register r2 => .LDR TEMP .sp (stackOffset p1) :: opR o TEMP TEMP r2
+     | .spill p1, .spill p2 =>
+       .LDR TEMP .sp (stackOffset p1) :: .LDR TEMP2 .sp (stackOffset p2) :: opR o TEMP TEMP TEMP2)
+    ++ [.STR TEMP .sp (stackOffset targetPosition)]
+
+/-- code.rs: fn op (the mixed cases: `let scratch = if <register operand> == TEMP { TEMP2 } else { TEMP }`) -/
+def op (o : BinOp) (targetTemporary sourceTemporary1 sourceTemporary2 : Temporary) : List Code :=
+  match targetTemporary with
+  | .register targetRegister =>
+    match sourceTemporary1, sourceTemporary2 with
+    | .register r1, .register r2 => opR o targetRegister r1 r2
+    | .register r1, .spill p2 =>
+      let scratch := if r1 = TEMP then TEMP2 else TEMP
+      .LDR scratch .sp (stackOffset p2) :: opR o targetRegister r1 scratch
+    | .spill p1, .register r2 =>
+      let scratch := if r2 = TEMP then TEMP2 else TEMP
+      .LDR scratch .sp (stackOffset p1) :: opR o targetRegister scratch r2
+    | .spill p1, .spill p2 =>
+      .LDR TEMP .sp (stackOffset p1) :: .LDR TEMP2 .sp (stackOffset p2) :: opR o targetRegister TEMP TEMP2
+  | .spill targetPosition =>
+    (match sourceTemporary1, sourceTemporary2 with
+     | .register r1, .register r2 => opR o TEMP r1 r2
+     | .register r1, .spill p2 =>
+       let scratch := if r1 = TEMP then TEMP2 else TEMP
+       .LDR scratch .sp (stackOffset p2) :: opR o TEMP r1 scratch
+     | .spill p1, .register r2 =>
+       let scratch := if r2 = TEMP then TEMP2 else TEMP
+       .LDR scratch .sp (stackOffset p1) :: opR o TEMP scratch r2
      | .spill p1, .spill p2 =>
        .LDR TEMP .sp (stackOffset p1) :: .LDR TEMP2 .sp (stackOffset p2) :: opR o TEMP TEMP TEMP2)
     ++ [.STR TEMP .sp (stackOffset targetPosition)]
@@ -140,8 +169,9 @@ def compareImmediate (temporary : Temporary) (immediate : Int) : List Code :=
   | .spill position => [.LDR TEMP .sp (stackOffset position), .CMPI TEMP immediate]
 
 /-- code.rs: fn caller_save_registers_info, with the comparison that decides whether the last
-register (the link register) is saved as a parameter: the code has `>` (`lrStrict = true`);
-`lrStrict = false` is the repaired condition `>=`. -/
+register (the link register) is saved as a parameter: `lrStrict = false` is the code as it is
+(`first_free_register >= REGISTER_NUM`, since repo commit 58adc26); `lrStrict = true` is the earlier
+condition `>`, kept for the defect witness `C13_a64_lr_witness`. -/
 def callerSaveRegistersInfoG (lrStrict : Bool) (context : Ctx) : Nat × List Nat :=
   let firstFreeRegister := 2 * context.length + RESERVED
   let firstBackupRegister := max firstFreeRegister (CALLER_SAVE_LAST + 1)
@@ -158,7 +188,7 @@ def callerSaveRegistersInfoG (lrStrict : Bool) (context : Ctx) : Nat × List Nat
   (firstBackupRegister, base ++ lr ++ go (context.take (callerSaveCount / 2)) 0)
 
 /-- code.rs: fn caller_save_registers_info -/
-def callerSaveRegistersInfo (context : Ctx) : Nat × List Nat := callerSaveRegistersInfoG true context
+def callerSaveRegistersInfo (context : Ctx) : Nat × List Nat := callerSaveRegistersInfoG false context
 
 /-- `iter().enumerate()` -/
 def enumFrom {α : Type} : Nat → List α → List (Nat × α)
@@ -309,7 +339,7 @@ def printI64G (lrStrict : Bool) (newline : Bool) (sourceTemporary : Temporary) (
 
 /-- code.rs: Instructions::print_i64 -/
 def printI64 (newline : Bool) (sourceTemporary : Temporary) (context : Ctx) : List Code :=
-  printI64G true newline sourceTemporary context
+  printI64G false newline sourceTemporary context
 
 /-! ## memory.rs -/
 
@@ -521,6 +551,20 @@ def BlockPosition.toNat : BlockPosition → Nat
   | .last => 0
   | .other => 1
 
+/-- memory.rs: fn store_fields, the part `if block_position == BlockPosition::Other { … store_field(Fst, …) }` -/
+def storeLink (blockPosition : BlockPosition) (remainingPlusToStore : Ctx) : GenM (List Code) :=
+  if blockPosition == .other then do
+    let c ← storeField .fst remainingPlusToStore HEAP (FIELDS_PER_BLOCK - 1)
+    pure (.COMMENT "##store link to previous block" :: c)
+  else pure []
+
+/-- memory.rs: fn load_fields, the part `if block_position == BlockPosition::Other { … load_field(Fst, …) }` -/
+def loadLink (blockPosition : BlockPosition) (existingPlusToLoad : Ctx) (memoryBlock : Register) : GenM (List Code) :=
+  if blockPosition == .other then do
+    let c ← loadField .fst existingPlusToLoad memoryBlock (FIELDS_PER_BLOCK - 1)
+    pure (.COMMENT "###load link to next block" :: c)
+  else pure []
+
 /-- memory.rs: fn store_fields. `fuel` bounds the recursion depth (`to_store` gets strictly shorter
 in every recursive call; callers pass `to_store.length + 1`). -/
 def storeFields : Nat → Ctx → Ctx → BlockPosition → GenM (List Code)
@@ -533,10 +577,7 @@ def storeFields : Nat → Ctx → Ctx → BlockPosition → GenM (List Code)
       else pure []
     else do
       let remainingPlusToStore := remainingContext ++ toStore
-      let c1 ← if blockPosition == .other then do
-          let c ← storeField .fst remainingPlusToStore HEAP (FIELDS_PER_BLOCK - 1)
-          pure (.COMMENT "##store link to previous block" :: c)
-        else pure []
+      let c1 ← storeLink blockPosition remainingPlusToStore
       let cap := FIELDS_PER_BLOCK - blockPosition.toNat
       let restLength := if toStore.length ≤ cap then 0 else toStore.length - cap
       let toStoreNext := toStore.drop restLength
@@ -567,10 +608,7 @@ def loadFields : Nat → Ctx → Ctx → BlockPosition → LoadMode → Bool →
       | .register memoryBlockRegister => do
         let c1 : List Code :=
           if loadMode == .release then .COMMENT "###release block" :: releaseBlock memoryBlockRegister else []
-        let c2 ← if blockPosition == .other then do
-            let c ← loadField .fst existingPlusToLoad memoryBlockRegister (FIELDS_PER_BLOCK - 1)
-            pure (.COMMENT "###load link to next block" :: c)
-          else pure []
+        let c2 ← loadLink blockPosition existingPlusToLoad memoryBlockRegister
         let c3 ← loadValues toLoadNext existingPlusRest memoryBlockRegister cap loadMode
         pure (c0 ++ c1 ++ c2 ++ c3, registerFreed)
       | .spill memoryBlockPosition => do
@@ -581,10 +619,7 @@ def loadFields : Nat → Ctx → Ctx → BlockPosition → LoadMode → Bool →
           else []
         let c1 : List Code := [.LDR TEMPORARY_TEMP .sp (stackOffset memoryBlockPosition)] ++
           (if loadMode == .release then .COMMENT "###release block" :: releaseBlock TEMPORARY_TEMP else [])
-        let c2 ← if blockPosition == .other then do
-            let c ← loadField .fst existingPlusToLoad TEMPORARY_TEMP (FIELDS_PER_BLOCK - 1)
-            pure (.COMMENT "###load link to next block" :: c)
-          else pure []
+        let c2 ← loadLink blockPosition existingPlusToLoad TEMPORARY_TEMP
         let c3 ← loadValues toLoadNext existingPlusRest TEMPORARY_TEMP cap loadMode
         let c4 : List Code :=
           if blockPosition == .last then
@@ -655,8 +690,9 @@ def tempLt (a b : Temporary) : Bool :=
 
 /-! ## the instance -/
 
-/-- The AArch64 backend as a backend record; `lrStrict = true` is the code as it is. -/
-def a64BackendG (lrStrict : Bool) : Scc.Backend.Backend Code Temporary where
+/-- The AArch64 backend as a backend record. `old = false` is the code as it is; `old = true` is the
+code before the repairs 8e009b7 (`op`) and 58adc26 (`caller_save_registers_info`). -/
+def a64BackendG (old : Bool) : Scc.Backend.Backend Code Temporary where
   temp := .register TEMP
   heap := .register HEAP
   free := .register FREE
@@ -675,9 +711,9 @@ def a64BackendG (lrStrict : Bool) : Scc.Backend.Backend Code Temporary where
   loadImmediate := loadImmediate
   loadLabel := loadLabel
   addAndJump := addAndJump
-  binop := op
+  binop := if old then opOld else op
   mov := mov
-  printI64 := fun nl s c => pure (printI64G lrStrict nl s c)
+  printI64 := fun nl s c => pure (printI64G old nl s c)
   eraseBlock := eraseBlock
   shareBlockN := shareBlockN
   store := store
@@ -688,10 +724,10 @@ def a64BackendG (lrStrict : Bool) : Scc.Backend.Backend Code Temporary where
   tempLt := tempLt
   tempEq := fun a b => a == b
 
-def a64Backend : Scc.Backend.Backend Code Temporary := a64BackendG true
+def a64Backend : Scc.Backend.Backend Code Temporary := a64BackendG false
 
-/-- The backend with the repaired link-register condition (`>=`), for use after the repo is fixed. -/
-def a64BackendFixed : Scc.Backend.Backend Code Temporary := a64BackendG false
+/-- The backend before the two repairs (for the defect witnesses and for replaying them). -/
+def a64BackendOld : Scc.Backend.Backend Code Temporary := a64BackendG true
 
 /-! ## into_routine.rs -/
 
